@@ -1,9 +1,13 @@
 """C08: clocks within one minute agree on keys; stale segments refused (DESIGN.md 7/C08)."""
 from vlib import run_pair
+from xl import xl_pair, xl_search, XL_TRUSTED
 
 PID = "C08"
 MODEL_VOS = ["model/KeyTime.vo"]
+TRUSTED_EXTRA = [XL_TRUSTED]
+USES_TRANSLATED = True     # props/C08.v has theorems over gen/Translated.v (C08_source_*): a translator failure is a problem of this check
 ASSUMPTIONS = [
+    "C08_source_mid / C08_source_within_range / C08_source_stamp_is_minute are about coq/gen/Translated.v, i.e. the Go source text of mathext.Mid and mathext.WithinRange (at uint32) and of the stamp expression in sessionStruct.Marshal as go2coq reads them on this run; C09_source_unmarshal_session / C09_source_session_roundtrip (props/C09.v) show that sessionStruct.Unmarshal applies exactly this test to the stamped minute. dataAckStruct.Unmarshal (pointer composite literal, call through a pointer parameter) is outside the translated fragment: its timestamp test is tied by the c08t correspondence only",
     "second driver c08t (virtual time): the real metadata Marshal/Unmarshal of pkg/protocol (through the C09 export hooks) run at controlled instants around minute ticks and slot changes; compared with minute()/timestamp_ok of the model and judged against the property text",
     "instants lie in the era where the uint32 minute counter does not wrap (60 s <= t < (2^32-1)*60 s); the wrap corner is compared (W cases) but not claimed",
     "the jitter drawn by getCachedCiphers is not observable: the model runner accepts a lookup iff jitter 0 or max-1 explains it (monotone in the jitter)",
@@ -19,15 +23,18 @@ ASSUMPTIONS = [
 
 def run(ctx):
     return [run_pair(ctx, "c08", PID, MODEL_VOS),
-            run_pair(ctx, "c08t", PID, MODEL_VOS, faketime=True, subdir="c08t")]
+            run_pair(ctx, "c08t", PID, MODEL_VOS, faketime=True, subdir="c08t"),
+            # xl: the real mathext.Mid / WithinRange at uint32 vs their translation (validates the translator) and the translation
+            # vs mid3 / within_range32 of model/KeyTime.v
+            xl_pair(ctx, "c08")]
 
 
 def search(ctx):
-    return [run_pair(ctx, "c08", PID, None, tier="thorough", seed=ctx.seed + 1000 + i, subdir="search%d" % i) for i in range(2)] + \
+    return xl_search(ctx, "c08") + [run_pair(ctx, "c08", PID, None, tier="thorough", seed=ctx.seed + 1000 + i, subdir="search%d" % i) for i in range(2)] + \
            [run_pair(ctx, "c08t", PID, None, faketime=True, tier="thorough", seed=ctx.seed + 2000, subdir="searcht")]
 
 MANIFEST = dict(
     text="Theorems over the KeyTime model (Go time.Round slots, uint32 minute stamps with wrap, WithinRange/Mid, the key cache and the per-decryptor cache, and the age of the key-holding client underlay against its scheduling window) proved for all instants, skews, underlay ages, cache histories and jitter draws; the window is shown to be the largest safe one (every larger window, in particular one whole refresh interval, is refuted by a witness); constants, including the measured scheduling window of a client UDP underlay, regenerated from /repo; the model's executable definitions are compared with pkg/cipher, pkg/mathext and, under virtual time, with real client muxes whose underlays are aged through the window, and every case is also judged against the property text.",
     note="Assumes Go's time.Round/Unix semantics as modelled (compared on every case), instants inside the non-wrapping uint32-minute era, jitter draws unobservable (acceptor at both extremes), no latency between the client's send and the server's read, the server of the aged-underlay cases represented by the real StatelessDecryptor at an explicit clock. TCP underlays have no age dimension beyond the dial-to-first-segment latency (stated, shown on the real code without skew). PBKDF2/SHA-256/XChaCha20 used by the driver come from golang.org/x/crypto.",
-    technique="Coq proof (lia over Z with div/mod) of slot/timestamp/cache/underlay-age theorems + differential run of the extracted model against pkg/cipher and against real client muxes under Go's faketime runtime",
+    technique="Coq proof (lia over Z with div/mod) of slot/timestamp/cache/underlay-age theorems; the timestamp test (mathext.Mid/WithinRange) translated from the Go source on every run (go2coq) and proved equal to the model + differential run of the extracted model against pkg/cipher and against real client muxes under Go's faketime runtime",
 )
